@@ -40,7 +40,7 @@ RULE = (
 )
 BOUNDS = {
     "quick": "singles: 24 listeners x {ISS-like, Molniya} x {Kepler, Sgp4, KeplerNum, Ephem} x 2 steps (LEO 60/180 s, HEO 180/600 s) "
-    "+ SSO/GTO under Kepler; pairs: all 276 pairs on ISS-like/Kepler/180 s; all-together on 4 orbits x 4 propagators; "
+    "+ SSO/GTO under Kepler + SSO/Sgp4/600 s; pairs: all 276 pairs on ISS-like/Kepler/180 s; all-together on 4 orbits x 4 propagators; "
     "histories: depth<=1 prefixes for each single listener (ISS-like/Kepler), depth<=2 for a 6-listener set (Kepler, KeplerNum; depth<=1 Sgp4, Ephem); "
     "a sample placed -1/0/+1 us from an event date (5 listeners x 4 propagators); visibility streams 11 worlds; span 2 revolutions (histories: 1)",
     "thorough": "singles: 24 x 4 orbits x 4 propagators x steps {30,60,180,600} (HEO: {60,180,600}) (+ call mode 'dates' at 180/600 s); "
@@ -566,6 +566,14 @@ def check_semantics(ctx, items, t, case):
                 continue
             ev = got[0]
             nev += 1
+            if key.startswith("anom-") and abs(g1 - g0) > math.pi:
+                # the sign change is the +-pi discontinuity of the wrapped difference, not a zero: the anomaly advanced by
+                # more than pi - 2 rad past the wrap within one step, so the listener's own |diff| < 2 gate let it through and
+                # an event is reported half a turn away from the requested anomaly
+                t.fail(f"listen/anomaly-wrap-event/{key.split('-')[1]}", "an Anomaly event marks the anomaly reaching the requested value "
+                       "(the label matches the crossing)", case, f"no event (anomaly passes value+180 deg, not {math.degrees(AVALS[key.split('-')[2]]):.2f} deg)",
+                       _lab(ev), f"g({grid[k]/1e6:.0f}s)={g0!r} g({grid[k+1]/1e6:.0f}s)={g1!r} prop={ctx.prop} orbit={ctx.orbit} step={ctx.step}")
+                continue
             check_event(ctx, j, key, ev, k, samples, (g0, g1), t, case)
     for (k, j), got in emitted.items():
         t.fail(f"listen/spurious/{ltype(keys[j])}", "events lie between two samples", case, "no event",
@@ -594,8 +602,6 @@ def check_event(ctx, j, key, ev, k, samples, g01, t, case):
         return
     # sharpness: sign change of the watched function within +-W of the emitted state
     W = W_FIXED if key in EARTH_FIXED else W_INERTIAL
-    if key == "apside" or key == "mask":
-        pass  # their __call__ is pure as well (info() uses prev, __call__ does not)
     gm, gp = float(L(neighbour(ctx, ev, -W))), float(L(neighbour(ctx, ev, +W)))
     t.trans(2)
     if not (sgn(gm) != sgn(gp) and sgn(gm) == sgn(g01[0]) and sgn(gp) == sgn(g01[1])):
@@ -1002,8 +1008,11 @@ def cases(tier):
                         continue
                     for key in LKEYS:
                         out.append(dict(kind="single", orbit=orbit, prop=prop, step=step, mode=mode, lset=[key]))
-    # 'dates' call mode in the quick tier: a few cheap representatives per propagator
+    # 'dates' call mode in the quick tier: a few cheap representatives per propagator; a coarse step on a near-circular
+    # SGP4 orbit (osculating anomalies advance by up to 2 rad per step)
     if quick:
+        for key in LKEYS:
+            out.append(dict(kind="single", orbit="sso", prop="sgp4", step=600, mode="range", lset=[key]))
         for prop in props:
             for key in ("node", "apside", "umbra", "sig0"):
                 out.append(dict(kind="single", orbit="iss", prop=prop, step=180, mode="dates", lset=[key]))
